@@ -42,6 +42,7 @@ def _mk():
     o["decr"] = lambda c, nr: c.decr("n", 1, **_nr({}, nr))
     o["touch"] = lambda c, nr: c.touch("k1", 10, **_nr({}, nr))
     o["flush_all"] = lambda c, nr: c.flush_all(**_nr({}, nr))
+    o["quit"] = lambda c, nr: c.quit()
     o["version"] = lambda c, nr: c.version()
     o["stats"] = lambda c, nr: c.stats()
     return o
@@ -57,6 +58,8 @@ NOT_ON_HASH = {"version"}
 
 def effective_noreply(name, nr, default_noreply=True):
     """does the call ask the server for noreply (independent statement of the documented defaults)"""
+    if name == "quit":
+        return True          # quit is sent without waiting for any reply
     if name in NEVER_NOREPLY:
         return False
     if nr is None:
